@@ -16,10 +16,10 @@
    minimality and round trip of the encoding for all Z (C14_roundtrip, C14_minimal, C14_canonical,
    C14_canonical_unique). new_malachite_number has the same text as new_number and the same model;
    num-bigint's / malachite's to_signed_bytes_be are modelled by [to_signed_bytes_be] (trusted).
-   NOT proved in Coq: atom_eq = byte equality (all four representation cases are compared with the
-   byte strings on the implementation and the model by the check, incl. exhaustive short strings).
-   Level claimed: other. *)
-From Clvm Require Import Model.AllocHist Proofs.AllocBasics Proofs.AllocHeap Proofs.AllocOps
+   C14_atom_eq: atom_eq = equality of the denoted bytes in all four representation cases.
+   Level claimed: other (the immutability theorem is unconditional only for the repaired new_substr,
+   and the bignum libraries' byte conversions are modelled, not verified). *)
+From Clvm Require Import Model.AllocHist Proofs.BytesLemmas Proofs.AllocBasics Proofs.AllocHeap Proofs.AllocOps
   Proofs.AllocInv Proofs.AllocReads Proofs.IntEncProofs Proofs.AllocEnc.
 Open Scope N_scope.
 
@@ -54,6 +54,14 @@ Proof. exact number_spec. Qed.
 
 Theorem C14_atom : forall a n b, denote (hp a) n = Some (Atom b) -> atom a n = Ok b.
 Proof. exact atom_spec. Qed.
+
+Theorem C14_atom_eq : forall a x y bx by_, WF (hp a) ->
+  denote (hp a) x = Some (Atom bx) -> denote (hp a) y = Some (Atom by_) ->
+  atom_eq a x y = Ok (bytes_eqb bx by_).
+Proof. exact atom_eq_spec. Qed.
+(* ... and bytes_eqb is equality *)
+Theorem C14_bytes_eqb : forall a b, bytes_eqb a b = true <-> a = b.
+Proof. exact BytesLemmas.bytes_eqb_eq. Qed.
 
 Theorem C14_enc_number : forall a z, AOK a -> stores a (new_number a z) z.
 Proof. exact new_number_stores. Qed.
@@ -90,6 +98,8 @@ Print Assumptions C14_small_number.
 Print Assumptions C14_fits_in_small_atom.
 Print Assumptions C14_number.
 Print Assumptions C14_atom.
+Print Assumptions C14_atom_eq.
+Print Assumptions C14_bytes_eqb.
 Print Assumptions C14_enc_number.
 Print Assumptions C14_enc_malachite.
 Print Assumptions C14_enc_u64.
